@@ -20,7 +20,7 @@ DOC = {
         'C09.R4': 'visited set consulted only under follow_links; hidden = file name starts with "."; .gitignore consulted unless no_ignore',
         'C09.R5': 'include/exclude path patterns are made absolute with abs_pattern(base_dir, _); name patterns are not',
         'C09.R6': 'visit_dir reads a directory iff level < depth && matches_dir && (!one_fs || same_fs) (reach table over these atoms)',
-        'C09.R15': 'with -L a directory is walked once, so the ignore rules applied below it must not depend on the route: the ignore stack handed to a link target is a function of the target, not of the directory that holds the link (visit_link must not pass its own stack on)',
+        'C09.R15': 'with -L a directory is walked once, so the ignore rules applied below it must not depend on the route: the ignore stack handed to a link target is a function of the target, not of the directory that holds the link (visit_link must not pass its own stack on) - or a visit is recorded per (path, ignore stack), so that every route applies its own rules and none suppresses another, with IgnoreStack::push idempotent so that a cycle of links cannot grow the stack for ever',
         'C09.R14': 'the directory admission test (PathSelector::matches_dir: "could something below match?") is applied to directories only: its callers are visit_dir alone - applied to an input path or a link target that is a file it asks whether `file/...` is excluded and drops files that no pattern excludes',
         'C09.R13': 'ignore files as documented: IgnoreStack::push loads .gitignore and .fdignore of a directory independently of each other (neither is looked at only when the other is absent); IgnoreStack::matches lets the deepest ignore file that says anything decide (reverse iteration, a whitelist `!` match ends the search with "not ignored"), instead of "ignored by any level"',
         'C09.R16': 'every input path is walked on its own at level 0: in the loop of Walk::run the only decisions that skip the spawn of visit_path are the stat failure and the directory-with-depth-0 case, each with a warning; no input path is left out because of another one',
@@ -192,6 +192,29 @@ def r15(ctx):
     # the ignore-stack argument of visit_path: is it the parameter received by visit_link (the stack of the link's directory)?
     stack_args = [a for a in vp[0].args if 'IgnoreStack' in vl.local_ty(op_local(a) if op_local(a) is not None else 0)]
     inherited = any(backslice(vl, [a]).params and not backslice(vl, [a]).has_call(r'IgnoreStack::(new|empty|for_path|push)$') for a in stack_args)
+    # the other way to make the result independent of the route: the route's rules are part of what "visited" means
+    mv = lib.body(W + 'mark_visited')
+    keyed = False
+    if mv is not None:
+        for x in [mv] + [lib.body(cp) for cp in lib.closures_of(mv.path)]:
+            for k in x.calls(r'DashMap<.*>::entry$|DashMap::<K, V, S>::entry$|::entry$|DashSet.*::insert$'):
+                ksl = backslice(x, [k.args[-1]])
+                if ksl.has_call(r'path::Path::hash128$') and any('IgnoreStack' in x.local_ty(p_) for p_ in ksl.params) and ksl.has_call(r'IgnoreStack::\w+$'):
+                    keyed = True
+    if keyed:
+        ctx.ok(rule, vl.path + '|target-stack-not-inherited', vp[0].where(), 'the link target is visited with the stack of the link, and a visit is recorded per (path, ignore stack): every route applies its own rules, none suppresses another')
+        # ... which needs the stack to stop growing on a cycle of links: pushing the ignore files of a directory that is in the stack already changes nothing
+        pu = lib.body('walk::IgnoreStack::push')
+        idem = False
+        if pu is not None:
+            for x in [pu] + [lib.body(cp) for cp in lib.closures_of(pu.path)]:
+                if x.calls(r'Gitignore::path$'):
+                    idem = True
+            idem = idem and bool(pu.calls(r'Iterator::any$|Iterator>::any$|::contains$|Iterator::find$|Iterator::position$'))
+        ctx.check(idem, rule, 'walk::IgnoreStack::push|idempotent', (pu.where() if pu else vl.where()), 'push() leaves the stack unchanged when it already holds the ignore files of the directory',
+                  'the visited record is keyed by the ignore stack, but push() appends the ignore files of a directory every time it is entered: on a cycle of links (`d/self -> .`) each round makes a new, '
+                  'longer stack, no visit is ever recognised as a repetition, and the walk does not end')
+        return
     ctx.check(bool(stack_args) and not inherited, rule, vl.path + '|target-stack-not-inherited', vp[0].where(), 'the link target is visited with an ignore stack built for the target',
               'visit_link hands the ignore stack of the directory that holds the link to the target: with -L the first route to reach a directory decides which .gitignore rules apply to its whole subtree '
               '(e/b/link -> ../a/sub reaches e/a/sub without e/a/.gitignore), and which route is first depends on --threads and on the inode order: `group -t 1 -L e` reports 0 files, `-t 4` reports 2')
